@@ -211,6 +211,8 @@ end
 theorem parseFormula_complete {ts : List Token} {f : Formula} (h : Derives ts f) : parseFormula ts = some f := by
   obtain ⟨pre, rfl, hs⟩ := h
   have := sub_complete hs [.eof] (4 * (pre ++ [Token.eof]).length + 8) (stop_cons rfl) (by simp; omega)
-  simp [parseFormula, this, expect]
+  unfold parseFormula
+  rw [this]
+  simp [expect]
 
 end Rsbdd
